@@ -263,9 +263,24 @@ NoDev(d, app) == /\ ~(app /\ (d \in dev \/ d \in Forced))
                  /\ nodev' = IF app /\ d \in Allowed THEN nodev \cup {d} ELSE nodev
                  /\ UNCHANGED dev
 
+\* legacy: register(name, func) for a prefix that already has a handler is refused by the handler table (ValueError from
+\* set_interest_filter, before anything is sent). User calls of that kind are not generated (Call); the starting task meets
+\* it when a route was declared while it was at work (the route's own task attached the handler first): it notes the refusal
+\* and goes on with the next declared route (fix 33f53e0; before, the exception ended the starting task)
+Refused == [k |-> "refused", v |-> FALSE]
+DupHandler(c) == Legacy /\ vb[c] = "register" /\ wf[c] /\ pf[c] \in filt
+BeginRefused(c) ==
+  /\ running = c /\ pc[c] = "start" /\ DupHandler(c)
+  /\ result' = [result EXCEPT ![c] = Refused]
+  /\ pc' = [pc EXCEPT ![c] = "done"]
+  /\ running' = 0
+  /\ autoCall' = IF c = autoCall THEN 0 ELSE autoCall
+  /\ UNCHANGED <<clock, pend, up, conn, autoQ, nauto, vb, pf, wf, g, tries, late, sem, semQ, lastTs, cmds, replies, fin, filt, dev, nodev>>
+  /\ Track
+
 \* entry of the coroutine up to the semaphore: legacy handler table bookkeeping
 Begin(c) ==
-  /\ running = c /\ pc[c] = "start"
+  /\ running = c /\ pc[c] = "start" /\ ~DupHandler(c)
   /\ LET app == Legacy /\ vb[c] = "unregister" /\ pf[c] \notin filt IN
      \/ /\ NoDev("LegacyUnregKeyError", app)
         /\ pc' = [pc EXCEPT ![c] = "wantSem"]
@@ -401,7 +416,7 @@ Env == \/ \E c \in Calls, v \in UserVerbs, p \in UserPrefixes, w \in BOOLEAN, d 
        \/ \E d \in 0..1 : Connect(d)
        \/ Disconnect
 Internal == \/ AutoNext \/ EndRun
-            \/ \E c \in Calls : Begin(c) \/ Acquire(c) \/ AcquireWake(c) \/ ReadClock(c) \/ Sleep(c) \/ Send(c) \/ Finish(c)
+            \/ \E c \in Calls : Begin(c) \/ BeginRefused(c) \/ Acquire(c) \/ AcquireWake(c) \/ ReadClock(c) \/ Sleep(c) \/ Send(c) \/ Finish(c)
 
 Next == Env \/ Internal
 Spec == Init /\ [][Next]_vars
